@@ -47,7 +47,7 @@ def make_plan(seed: int, tier: str) -> dict:
     rng = SimRng(seed)
     st = rng.stream("plan")
     call = st.choice(CALLS)
-    kind = st.choice(["logistic_diag", "logistic_scalar"]) if call == "simulate" else st.choice(KINDS + (["mixture", "joint_ev2"] if call == "fit" else []))
+    kind = st.choice(["logistic_diag", "logistic_scalar"]) if call == "simulate" else st.choice(KINDS + (["mixture", "mixture", "joint_ev2"] if call == "fit" else []))
     info = workload.kind_info(kind)
     nf = 1 if info["uni"] else 3
     plan = {"seed": seed, "tier": tier, "engine": "procsim_c11", "call": call, "kind": kind, "nf": nf, "gseed": st.u64() & 0xFFFFFFFF,
@@ -73,7 +73,7 @@ def make_plan(seed: int, tier: str) -> dict:
         elif k == "seed_other":
             op["s"] = st.randint(0, 1000)
         elif k == "earlier_fit":
-            op.update(kind=st.choice(["linear_diag", "logistic_diag", "shared_speed"]), n_iter=st.randint(2, 4), s=st.randint(0, 9))
+            op.update(kind=st.choice(["linear_diag", "logistic_diag", "shared_speed", "mixture"]), n_iter=st.randint(2, 4), s=st.randint(0, 9))
         elif k == "earlier_personalize":
             op.update(kind=st.choice(["logistic_diag", "linear_diag"]), algo=st.choice(["scipy_minimize", "mean_posterior"]), s=st.randint(0, 9))
         elif k == "open_figures":
@@ -168,7 +168,8 @@ def run_plan(plan: dict) -> dict:
             C["abort.logging_configuration_refused"] += 1
             continue
         logkind = _logkind(plan) if label == "with_history_and_logging" else "none"
-        violation(out, "completes", f"run_aborted:{label}:{typ}:{where_exc}:{logkind}", f"{where}: {typ}: {msg}")
+        kind_tag = ":mixture_model" if kind == "mixture" else ""   # (the experimental mixture model has a recorded finding of its own)
+        violation(out, "completes", f"run_aborted:{label}:{typ}:{where_exc}:{logkind}{kind_tag}", f"{where}: {typ}: {msg}")
     ns_kind = "three_individual_variables" if workload.kind_info(kind)["sources"] else "two_individual_variables"
     for label, d in digs.items():
         C["probe.digest_compared"] += 1
